@@ -167,8 +167,8 @@ def through_samples(ctx):
     tolerance; its Ok/ZeroDet/Unstable must be the sample's. Oracle: an Ok sample has no NaN and its residual is <= tol."""
     from .. import samples as S
     rng = ctx.rng
-    ss = S.generate(ctx, 8 if ctx.quick else 50, 6 if ctx.quick else 12, max_e=6, max_loops=3, routings_per_graph=1,
-                    kinds=("uniform", "uniform", "corner"))
+    ss = S.generate(ctx, 8 if ctx.quick else 50, 8 if ctx.quick else 12, max_e=6, max_loops=3, routings_per_graph=1,
+                    kinds=("uniform", "uniform", "corner", "zero_xi"))
     ss += S.generate(ctx, 6 if ctx.quick else 30, 12 if ctx.quick else 24, max_e=5, max_loops=1, routings_per_graph=1,
                      kinds=("uniform", "uniform", "uniform", "corner"), names=["bubble", "triangle", "box", "pentagon", "tadpole"])
     for s in ss:
